@@ -1,11 +1,13 @@
 import Iscp.Model.Data
 /-
 M-Rec — executable model of transport/reconnect/transport.go: successive incarnations of the underlying
-transport with their write logs, the single write loop that retries the *same* request after a redial, the read
+transport with their write logs, the single write loop that retries the *same* request after every redial (as often
+as the fresh connection's write fails again: `for { write; if err { reconnect; continue }; break }`), the read
 loop that redials on error and filters control pings, the shared `reconnect` with its attempt budget and
 handshake read, Close, and what happens once the budget is exhausted.
 
-Adversary: which underlying writes/reads fail (`failW`, `failR`), the outcome of every redial attempt (`script`).
+Adversary: which underlying writes/reads fail (`failW`, `failR`), the outcome of every redial attempt (`script`),
+and how many of the next incarnations are themselves born with failing writes (`bornFailing`: repeated write failures).
 Assumption (stated in C18): an underlying Write that returns an error did not deliver.
 -/
 namespace Iscp.Rec
@@ -24,12 +26,14 @@ structure St where
   rq : List Bytes := []                        -- taken from an incarnation by the read loop, not yet returned by Read
   closed : Bool := false                       -- Close was called
   dead : Bool := false                         -- the redial budget was exhausted
+  bornFailing : Nat := 0                       -- the next k incarnations are born with failing writes (adversary)
 deriving Repr
 
 def pingMsg : Bytes := [112, 105, 110, 103]
 def pongMsg : Bytes := [112, 111, 110, 103]
 
-/-- `reconnect`: up to `budget` attempts, each consuming one scripted outcome; success = new incarnation -/
+/-- `reconnect`: up to `budget` attempts, each consuming one scripted outcome; success = new incarnation, whose writes
+    fail from the start iff the adversary still has `bornFailing` incarnations to spoil (one is used up) -/
 def redial : Nat → St → St
   | 0, s => { s with dead := true }
   | n + 1, s =>
@@ -38,7 +42,8 @@ def redial : Nat → St → St
       | o :: r => (o, r)
     let s1 := { s with script := rest, dials := s.dials ++ [true] }
     match o with
-    | .ok => { s1 with inc := s1.inc + 1, failW := false }   -- messages the read loop already took stay queued for Read
+    | .ok =>   -- messages the read loop already took stay queued for Read
+      { s1 with inc := s1.inc + 1, failW := decide (0 < s1.bornFailing), bornFailing := s1.bornFailing - 1 }
     | _ => redial n s1
 
 def reconnect (s : St) : St := redial s.budget s
@@ -53,13 +58,23 @@ deriving DecidableEq, Repr
 def logTo (s : St) (bs : Bytes) : St :=
   { s with logs := alPut s.inc ((alGet s.inc s.logs).getD [] ++ [bs]) s.logs }
 
-/-- the write loop serving one request (fuel: one retry suffices, a fresh incarnation accepts writes) -/
+/-- the write loop serving one request: `for { write; if err { reconnect; continue }; break }` — while the current
+    incarnation's write fails, redial (giving up with an error only when the redial budget is exhausted) and retry the
+    *same* request on the fresh incarnation, which may itself have been born with failing writes; the first incarnation
+    whose write works accepts the request, once.  The first argument is fuel (one unit per loop iteration). -/
+def writeLoop : Nat → St → Bytes → St × Out
+  | 0, s, _ => (s, .err)   -- out of fuel (never reached with the fuel `write` supplies: see C18.write_err_only_dead)
+  | n + 1, s, bs =>
+    if s.failW then
+      let s' := reconnect s
+      if s'.dead then (s', .err) else writeLoop n s' bs
+    else (logTo s bs, .wrote s.inc)
+
+/-- Write: an error after Close or once dead; otherwise the write loop.  Fuel `bornFailing + 2` always suffices: every
+    successful redial uses up one of the `bornFailing` spoilt incarnations, and an incarnation dialled when none is left
+    accepts writes (so at most `bornFailing + 1` redials and one final successful write). -/
 def write (s : St) (bs : Bytes) : St × Out :=
-  if s.closed ∨ s.dead then (s, .err)
-  else if s.failW then
-    let s' := reconnect s
-    if s'.dead then (s', .err) else (logTo s' bs, .wrote s'.inc)
-  else (logTo s bs, .wrote s.inc)
+  if s.closed ∨ s.dead then (s, .err) else writeLoop (s.bornFailing + 2) s bs
 
 /-- the current incarnation's Read fails: the read loop redials -/
 def failRead (s : St) : St × Out :=
@@ -84,6 +99,7 @@ def close (s : St) : St := { s with closed := true }
 
 inductive Ev
   | write (bs : Bytes) | failW | failR | script (l : List Dial) | deliver (bs : Bytes) | read | close
+  | bornFailing (k : Nat)   -- the adversary: the next k incarnations are born with failing writes
 deriving Repr
 
 def step (s : St) : Ev → St × Out
@@ -94,6 +110,7 @@ def step (s : St) : Ev → St × Out
   | .deliver bs => deliver s bs
   | .read => read s
   | .close => (close s, .ok)
+  | .bornFailing k => ({ s with bornFailing := k }, .ok)
 
 def run (s : St) : List Ev → St × List Out
   | [] => (s, [])
